@@ -3,6 +3,7 @@ import Verif.Model.Facts
 import Verif.Proofs.SortRef
 import Verif.Proofs.GatherPerm
 import Verif.Proofs.OrderIndep
+import Verif.Proofs.NamesPerm
 
 /-!
 # C07 — the order-sensitive functions of Flatten are deterministic
@@ -31,7 +32,7 @@ def discharged : List (String × String) := [
   ("importExternalReferences:opts.flattenContext.newRefs", "sampled only: the body inserts entries while ranging"),
   ("importNewRef:partialAnalyzer.references.allRefs", "UpdateRef at distinct keys of the imported schema (updateRef_commutes)"),
   ("namePointers:opts.Spec.references.allRefs", "collected into a map, then ordered by DepthFirst (total order, depthFirst_perm)"),
-  ("namesForParam:operations", "names collected then sort.Strings in namesFromKey"),
+  ("namesForParam:operations", "names collected then sort.Strings in namesFromKey: namesFromKey_order_independent"),
   ("normalizeRef:opts.Spec.references.allRefs", "UpdateRef at distinct analyzer keys: normalizeRef_order_independent"),
   ("removeUnusedSinglePass:opts.Spec.references.schemas", "set difference (C06.singlePass_keeps_used): removalPass_order_independent"),
   ("removeUnusedSinglePass:opts.Swagger().Definitions", "set construction"),
@@ -137,6 +138,15 @@ theorem sortedParents_order_independent {refs refs' : List (String × String)} (
     SortRef.topmostFirst (Flatten.updateRefParents refs r).parents =
       SortRef.topmostFirst (Flatten.updateRefParents refs' r).parents :=
   sortedParents_perm hp r
+
+/-- `namesForParam` ranges over the operations map (keyed by the operation's `$ref`) and appends one candidate
+    name per operation of the path; `namesFromKey` sorts the names: the names `InlineSchemaNamer.Name` tries
+    for a key, and their order, do not depend on the iteration order of that map -/
+theorem namesFromKey_order_independent (x : Flatten.Ext) (s : List String) (fl : Classify.Flags)
+    {ops ops' : List (String × Flatten.OpRef)} (hp : ops.Perm ops') (hn : (ops.map (·.1)).Nodup)
+    (names : List String) (h : Flatten.namesFromKey x s fl ops = .ok names) :
+    Flatten.namesFromKey x s fl ops' = .ok names :=
+  Proofs.NamesPerm.namesFromKey_perm x s fl hp hn names h
 
 /-! non-vacuity: two keys one of which lies inside the other are apart, and the two orders of updating a `$ref`
     with a `$ref`-holding sibling agree on a concrete document -/
